@@ -6,6 +6,7 @@ Exit codes: 0 = every rule instance holds (KNOWN-FINDING lines allowed),
 error, unmodelled construct, instance count below the confirmed minimum)."""
 import json
 import os
+import re
 import sys
 import time
 import traceback
@@ -38,6 +39,9 @@ class Finding:
     def as_dict(self):
         return {'rule': self.rule, 'key': self.key, 'message': self.msg,
                 'where': self.where}
+
+
+_UNKNOWN_RX = re.compile(r"(?<![A-Za-z_])TOP(?![A-Za-z_])|Sym\(")
 
 
 class Check:
@@ -103,12 +107,29 @@ class Check:
             s += ' (%s)' % q
         return s
 
+    def _drain(self):
+        from . import absint
+        notes = list(absint.IMPRECISION)
+        del absint.IMPRECISION[:]
+        return notes
+
     def ok(self, rid, key, detail=''):
         r = self.rules[rid]
         r['n'] += 1
         self.obligations.append((rid, key, True, detail))
+        self._drain()
 
     def fail(self, rid, key, msg, where=''):
+        notes = self._drain()
+        if not notes and _UNKNOWN_RX.search(msg):
+            # the outcome the message reports contains a value the interpretation did not determine
+            notes = ['the reported outcome contains an undetermined value (TOP)']
+        if notes:
+            # the interpretation this verdict rests on lost an effect or could not determine a test: no verdict
+            r = self.rules[rid]
+            r['n'] += 1
+            self.undec.append(Finding(rid, key, 'not determined (%s); would-be finding: %s' % ('; '.join(sorted(set(notes))[:2]), msg), where))
+            return
         r = self.rules[rid]
         r['n'] += 1
         r['fail'] += 1
@@ -129,6 +150,7 @@ class Check:
         r = self.rules[rid]
         r['n'] += 1
         self.undec.append(Finding(rid, key, msg, where))
+        self._drain()
 
     def decide(self, rid, key, got, want, msg, where='', detail=''):
         """Verdict from a set of abstract outcomes: holds when it equals `want`;
